@@ -8,7 +8,7 @@
 (4) in the back end coap_session_connected() is called only where do_gnutls_handshake() returned 1;
 (5) in coap_send_pdu() the transmission is reached only with session->state == COAP_SESSION_STATE_ESTABLISHED.
 """
-from core.prog import strip, walk, ap, key, short, const_int
+from core.prog import strip, walk, ap, key, short, const_int, is_null_const
 from core.psts import Env, solve, relevance, apply_generic, INF
 
 BACKEND_UNITS = ('coap_gnutls.c',)
@@ -221,13 +221,19 @@ def run(run, P):
 VERDICT_FIELDS = ('validate_id_call_back', 'validate_ih_call_back', 'validate_sni_call_back')
 
 
+# callbacks that are asked for every handshake (the SNI callback is not: names it accepted once are cached with their credentials)
+MUST_CONSULT = ('validate_ih_call_back', 'validate_id_call_back')
+
+
 def run_psk(run, P):
     """R-PSK-VERDICT (C19): "an identity the server does not know, or a hint the client rejects -> the session never becomes
     established".  The application says so by returning NULL from its identity / hint validation callback.  In every
     back-end function that invokes such a callback:
       - the variable that receives the verdict is not assigned again on the path after the callback (a later fall-back to
         the session's or context's default key silently accepts what the application rejected);
-      - a non-negative (success) return is reached only with the verdict known non-NULL."""
+      - a non-negative (success) return is reached only with the verdict known non-NULL;
+      - where the identity / hint callback is known to be installed (true arm of a test of the callback field) a success return is
+        reached only after it was called: no second condition decides that the application need not be asked."""
     from core.prog import callee_field
     run.rule('R-PSK-VERDICT')
     n = 0
@@ -258,6 +264,29 @@ def run_psk(run, P):
         retaps = set(ap(ev2['e']['e']) for b2, ev2 in P.events(f) if ev2['e'].get('k') == 'ret' and 'e' in ev2['e'] and ap(ev2['e']['e']))
         keys, R = relevance(f, is_rule_event, vvars | retaps)
         R = set(R) | vvars | retaps
+        keys = set(keys)
+        for b in f['blocks']:
+            c = (b.get('term') or {}).get('cond')
+            if c is not None and any(isinstance(x, dict) and x.get('k') == 'mem' and x.get('f') in VERDICT_FIELDS for x in walk(c)):
+                keys.add(b['id'])
+
+        def on_branch(b, s, env, ctx):
+            # "installed": the true arm of a test of the callback field itself
+            c = strip((b.get('term') or {}).get('cond'))
+            if c is None or len(b['succ']) != 2:
+                return env
+            truth = s == b['succ'][0]
+            while isinstance(c, dict) and c.get('k') == 'un' and c.get('op') == '!':
+                c = strip(c['e'])
+                truth = not truth
+            if isinstance(c, dict) and c.get('k') == 'bin' and c.get('op') in ('!=', '==') and is_null_const(c['r']):
+                truth = truth if c['op'] == '!=' else not truth
+                c = strip(c['l'])
+            if isinstance(c, dict) and c.get('k') == 'mem' and c.get('f') in MUST_CONSULT and truth:
+                e = env.copy()
+                e.ts['inst'] = c['f']
+                return e
+            return env
 
         def on_event(ev, env, ctx):
             t = ev['e']
@@ -268,6 +297,7 @@ def run_psk(run, P):
                 e = env.copy()
                 if iscb:
                     e.ts['cb'] = tuple(sorted(set(env.ts.get('cb', ())) | {v}))
+                    e.ts['called'] = 1
                 elif v in env.ts.get('cb', ()):
                     run.oblige('R-PSK-VERDICT', False, '%s:overwrite' % name)
                     run.violation('R-PSK-VERDICT', name, ev['loc'], 'verdict-overwritten',
@@ -292,6 +322,13 @@ def run_psk(run, P):
                                               'the validation callback returned NULL on this path, but the value returned (%s) is not known to be an error code: a rejected '
                                               'identity / hint / server name does not abort the handshake' % short(t['e']), ctx.path())
                         return None
+                if env.ts.get('inst') and not env.ts.get('cb') and not env.ts.get('called'):
+                    run.oblige('R-PSK-VERDICT', False, '%s:installed-consulted' % name)
+                    run.violation('R-PSK-VERDICT', name, ev['loc'], 'installed-callback-not-consulted:%s' % env.ts['inst'],
+                                  'a success return is reached on a path on which the application\'s %s is known to be installed but was never called: whatever the '
+                                  'application would have rejected is accepted with the default credentials' % env.ts['inst'], ctx.path())
+                elif env.ts.get('inst'):
+                    run.oblige('R-PSK-VERDICT', True, '%s:installed-consulted' % name)
                 for v in env.ts.get('cb', ()):
                     ok = env.nullf(v) == 'N'
                     run.oblige('R-PSK-VERDICT', ok, '%s:success-return' % name)
@@ -300,6 +337,6 @@ def run_psk(run, P):
                                       'a success return is reached on a path where the validation callback was called and its result is not known to be non-NULL: '
                                       'a rejected identity/hint does not abort the handshake', ctx.path())
             return None
-        ctx = solve(f, Env({'cb': ()}), on_event, None, keys, R, key_fn=lambda e: (e.ts.get('cb'), tuple(e.nullf(v) for v in sorted(vvars)), tuple((e.intf(a)[0] >= 0, e.intf(a)[1] < 0) for a in sorted(retaps0))))
+        ctx = solve(f, Env({'cb': ()}), on_event, None, keys, R, on_branch=on_branch, key_fn=lambda e: (e.ts.get('cb'), e.ts.get('inst'), e.ts.get('called'), tuple(e.nullf(v) for v in sorted(vvars)), tuple((e.intf(a)[0] >= 0, e.intf(a)[1] < 0) for a in sorted(retaps0))))
         run.stats['psk_solver_steps'] += ctx.steps
     run.require(n >= 2 or run.fixture_mode, 'R-PSK-VERDICT: fewer than 2 identity/hint validation call sites found in the TLS back end')
